@@ -12,6 +12,14 @@ pub struct TW {
     pub closed: bool,
 }
 
+impl Drop for TW {
+    fn drop(&mut self) {
+        if self.dead && !self.closed {
+            self.w.forget();
+        }
+    }
+}
+
 fn ename(le: bool) -> &'static str {
     if le {
         "le"
